@@ -68,6 +68,15 @@ check("C16", "exploration",
       "sequential map model of the documented contract; git 2.39.5; reftable vs git not compared (no reftable in git 2.39); NamespacedRefsContainer, peeled values and locked_ref not yet driven",
       "DESIGN.md §5 C16")
 
+check("C01", "exploration",
+      "runtime invariant monitor (name = hash of serialised content, bytes = independent reference serialiser over public getters) across generated setter/observation sequences, parse/print round trips in odd layouts, and C git as independent hasher/reader (hash-object, cat-file, mktree, commit-tree, fsck)",
+      "Objects built from generated field records (all four types, identities with odd bytes, times to 2^64, every +-HHMM spelling incl. -0000 "
+      "and the legacy --700, 0..8 parents, encoding, folded extra headers, mergetags, PGP/SSH signatures, missing messages/blank lines, "
+      "prefix-colliding tree names) are checked after every setter and at generated observation points; parsed texts are re-serialised "
+      "unchanged and after one-field edits; git hashes, reads and rebuilds the same logical objects. Decides the property on the inputs generated.",
+      "reference serialiser written from the git format documentation; git 2.39.5; in-place mutation of returned lists is not a setter call and is excluded",
+      "DESIGN.md §5 C01")
+
 ALL = ["C%02d" % i for i in range(1, 21)]
 
 
